@@ -1,1 +1,44 @@
-From Verif Require Import Base.
+(* C17 — UpdateDecoder reports errors with the RFC 7606 approach they require. *)
+From Verif Require Import Base Consts Packet Errors Update PacketSpec UpdateSpec UpdateProofs ErrorProofs.
+
+(* callbacks returning nil: nil iff the sections are consistent, the attribute walk ends
+   cleanly and the mandatory attributes are present whenever routes are announced; with
+   inconsistent lengths or a body shorter than 4 a bare Notification (3,1)/(3,0) *)
+Theorem c17_nil_iff_clean : forall sc b,
+  nil_script sc -> wf_bytes b = true ->
+  match spec_sections b with
+  | None => exists n, update_decode sc b = Ok ([], Some (ENotif n)) /\ n_code n = 3
+                      /\ n_sub n = (if blen b <? 4 then 0 else 1) /\ n_data n = []
+  | Some (W, A, Nl) =>
+      exists e,
+        update_decode sc b =
+          Ok (CWr W :: map item_call (fst (attr_items A))
+                ++ match snd (attr_items A) with EndDupMP => [] | _ => [CNl Nl] end, e)
+        /\ (e = None <-> snd (attr_items A) = EndClean /\ missing_attrs (fst (attr_items A)) Nl = false)
+  end.
+Proof. exact update_decode_nil. Qed.
+Print Assumptions c17_nil_iff_clean.
+
+(* any callback behaviour: Decode returns (no panic) ... *)
+Theorem c17_total : forall sc b,
+  wf_bytes b = true -> exists calls e, update_decode sc b = Ok (calls, e).
+Proof. exact decode_total. Qed.
+Print Assumptions c17_total.
+
+(* ... and never returns nil when a callback it invoked returned an error *)
+Theorem c17_callback_error_reported : forall sc b calls,
+  wf_bytes b = true -> update_decode sc b = Ok (calls, None) ->
+  forall j, (j < length calls)%nat -> sc j = None.
+Proof. exact decode_nil_callbacks_nil. Qed.
+Print Assumptions c17_callback_error_reported.
+
+(* UpdateNotificationFromErr: nil to nil, otherwise the first leaf (pre-order) of the
+   strongest class present: Notification > treat-as-withdraw > attribute-discard >
+   other UpdateError > generic UPDATE Message Error *)
+Theorem c17_from_err : forall e, unfe e = spec_unfe e.
+Proof. exact unfe_spec. Qed.
+Print Assumptions c17_from_err.
+
+Theorem c17_from_err_nil_iff : forall e, unfe e = None <-> e = None.
+Proof. exact unfe_nil_iff. Qed.
+Print Assumptions c17_from_err_nil_iff.
